@@ -154,3 +154,43 @@ def run(chk, tier, seed):
                 'random flag subsets x {fnmatch, glob}: translate(escape(s)) is one regex with language exactly {s} modulo case class / separator equivalences; and non-magic patterns are literal')
     chk.bounds.update(dict(c09_strings=len(strings), c09_flagsets=len(flagsets), c09_outcomes=counts))
     chk.sample(dict(string='a*[', escaped='a\\*\\[', flags='EXTMATCH|BRACE'))
+    fs_clause(chk, tier)
+
+
+def fs_job(args):
+    """glob(escape(e)) on a real tree whose names are full of metacharacters returns exactly [e] (str and bytes)."""
+    import os
+    from vlib.harness import trees
+    flagsets = args
+    bad = []
+    n = 0
+    with trees.Tree(trees.ODD) as t:
+        ents = sorted(t.entries())
+        for fl in flagsets:
+            for e in ents:
+                n += 1
+                try:
+                    got = G.glob(G.escape(e), flags=fl | G.U, root_dir=t.root)
+                    gotb = G.glob(G.escape(os.fsencode(e)), flags=fl | G.U, root_dir=os.fsencode(t.root))
+                except Exception as ex:
+                    bad.append((e, fl, f'raises {type(ex).__name__}: {ex}'))
+                    continue
+                if [x.rstrip('/') for x in got] != [e] or [x.rstrip(b'/') for x in gotb] != [os.fsencode(e)]:
+                    bad.append((e, fl, f'glob(escape) -> {got} / {gotb}'))
+    return n, bad
+
+
+def fs_clause(chk, tier):
+    feats = [G.E, G.B, G.S, G.N, G.M, G.T, G.G, G.D, G.K]     # not MATCHBASE: a slash-less name then matches at any depth by design
+    flagsets = [0, G.E | G.B | G.S | G.N | G.T | G.G, G.E | G.B | G.S | G.N | G.M | G.T | G.G | G.D] + feats
+    (n, bad), = [fs_job(flagsets)]
+    chk.case(key='fs-escape', n=n)
+    for i in range(n):
+        chk.nontrivial.add(('fs-escape', i))
+    for e, fl, what in bad:
+        chk.violation(dict(obligation='C09.bounded.glob(escape(name))_returns_exactly_that_file', pattern=e, fl=LC.flagnames(fl), witness=e),
+                      f'tree odd, name {e!r}, flags {LC.flagnames(fl)}: {what}',
+                      f"import sys; sys.path.insert(0, {REPO!r}); sys.path.insert(0, '/verif')\nfrom wcmatch import glob\nfrom vlib.harness import trees\n"
+                      f"with trees.Tree(trees.ODD) as t:\n    got = glob.glob(glob.escape({e!r}), flags={fl} | glob.U, root_dir=t.root)\n    print(got)\n    sys.exit(0 if [x.rstrip('/') for x in got] == [{e!r}] else 1)\n")
+    chk.bounds.update(dict(c09_fs_cases=n))
+    chk.rule += ('; FS: on a real tree whose 16 names contain \\\\ * [ ] { } | ! - ~ , glob(escape(name)) returns exactly that entry, str and bytes, under 12 flag sets')
